@@ -30,6 +30,10 @@ def workspace_files(seed: int):
 
 # workspaces on which the pinned tree is known to depend on the schedule: each is its own obligation
 KNOWN_CASES = {
+    "associate_inherited_component": {
+        "base.f90": "module base_m\n  type base_t\n    integer :: bx\n  end type base_t\nend module base_m\n",
+        "child.f90": "module child_m\n  use base_m\n  type, extends(base_t) :: child_t\n    integer :: cy\n  end type child_t\nend module child_m\n",
+        "prog.f90": "program p\n  use child_m\n  type(child_t) :: c\n  associate (z => c%bx)\n    z = 1\n  end associate\nend program p\n"},
     "nested_shared_include": {
         "a.f90": "module a_mod\n  implicit none\n  include 'k_inc.f90'\ncontains\n  subroutine sa()\n    kvar = cvar\n  end subroutine sa\nend module a_mod\n",
         "b.f90": "module b_mod\n  implicit none\n  include 'k_inc.f90'\ncontains\n  subroutine sb()\n    kvar = cvar\n  end subroutine sb\nend module b_mod\n",
